@@ -1,9 +1,9 @@
 SPECIFICATION Spec
 CONSTANTS
   BUF = 3
-  K = 6
-  ALPHA = {97, 32, 9, 10, 39, 34, 92, 195}
-  EMIT = TRUE
-  STARTED = TRUE
+  K = 5
+  ALPHA = {97, 32, 10, 39, 34, 92}
+  EMIT = FALSE
+  STARTED = FALSE
 INVARIANTS EqualsRef NoPhantomArgs NothingLostInBuffers RefLawsHold EmitVectors
 CHECK_DEADLOCK FALSE
